@@ -6,7 +6,7 @@
    configured with shipped specifications only, and the whole-daemon theorems apply to it unconditionally. *)
 From Coq Require Import List NArith ZArith Bool Lia.
 From PM Require Import Base.Bytes Base.Outcome Gen.GenConsts Gen.GenSpecs Model.ScriptAst Model.Enqueue Model.Script Model.Device Model.DevHarness
-                       Proofs.DeviceProofs Proofs.DeviceStmt Proofs.DeviceInv.
+                       Proofs.DeviceProofs Proofs.DeviceStmt Proofs.DeviceInv Model.DeviceFuel Proofs.DeviceFuel Proofs.DeviceHang.
 Import ListNotations.
 
 (* every % is followed by s or % *)
@@ -103,4 +103,29 @@ Theorem shipped_cfg_ok compress file s name plugs timeout ping :
   In (file, s) all_specs -> cfg_ok compress (mk_device name plugs (sp_scripts s) timeout ping).
 Proof.
   intros Hin. apply scripts_b_cfg_ok. pose proof shipped_scripts_ok as H. rewrite forallb_forall in H. exact (H (file, s) Hin).
+Qed.
+
+(* ---------- nesting depth (C07: the model's do..while round of _process_action has fuel 8; Proofs/DeviceHang.v needs every script of a
+   device to nest its blocks at most DeviceFuel.DMAX = 7 deep: nest_ok).  The sweep below re-checks it for every shipped specification
+   on every run; no shipped script nests a block inside a block: the maximum is 1 (shipped_max_depth). ---------- *)
+Lemma shipped_scripts_nest : forallb (fun p => nest_b (sp_scripts (snd p))) all_specs = true.
+Proof. vm_compute. reflexivity. Qed.
+
+Theorem shipped_nest_ok file s : In (file, s) all_specs -> nest_ok (sp_scripts s).
+Proof.
+  intros Hin. apply nest_b_ok. pose proof shipped_scripts_nest as H. rewrite forallb_forall in H. exact (H (file, s) Hin).
+Qed.
+
+Definition max_depth (specs : list (text * spec)) : nat :=
+  fold_right (fun p m => fold_right (fun q m' => Nat.max (depths (snd q)) m') m (sp_scripts (snd p))) O specs.
+Lemma shipped_max_depth : max_depth all_specs = 1%nat.
+Proof. vm_compute. reflexivity. Qed.
+
+(* a device configured with a shipped specification starts in the Hang-free invariant DInvH, whatever name, plug list, time-out and ping
+   period the configuration file gives it *)
+Theorem shipped_invH compress file s name plugs timeout ping :
+  In (file, s) all_specs ->
+  DInvH compress (mk_device name plugs (sp_scripts s) timeout ping) /\ dv_cstate (mk_device name plugs (sp_scripts s) timeout ping) = DEV_NOT_CONNECTED.
+Proof.
+  intros Hin. apply mk_device_invH; [exact (shipped_cfg_ok compress file s name plugs timeout ping Hin)|exact (shipped_nest_ok file s Hin)].
 Qed.
